@@ -488,7 +488,7 @@ func nonTrivial(c Case, nkeys int, seq []int, needKeys bool) bool {
 	if len(seq) < 3 || !hasDup(seq) {
 		return false
 	}
-	if !needKeys {
+	if !needKeys || len(docKeys[c.Fn]) < 2 {
 		return true
 	}
 	return nkeys >= 2 || (c.FromEnd != "" && c.Count != "")
@@ -1141,59 +1141,79 @@ func runSet(c Case) *h.Result {
 	for _, it := range items {
 		in[sx.Text(it)]++
 	}
-	avail := map[string]int{}
-	must := map[string]bool{}
-	allowed := map[string]bool{}
+	avail := map[string]int{}   // how often a text occurs in the arguments
+	allowed := map[string]bool{} // texts that may occur in the result
+	must := map[string]bool{}    // texts that must occur
+	valOf := map[string]int{}    // text -> element value
+	var cover []int              // element values whose equivalence class must be represented (equivalence tests)
 	type pair struct{ a, b string }
-	var oneOf []pair
+	var oneOf []pair // matched pairs of which one member must be present (asymmetric test)
+	equiv := c.Test != "lt"
 	t1 := func(i int) string { return es1[i].Text() }
 	t2 := func(j int) string { return es2[j].Text() }
+	for i, v := range c.Seq {
+		avail[t1(i)]++
+		valOf[t1(i)] = v
+	}
+	for j, v := range c.Seq2 {
+		avail[t2(j)]++
+		valOf[t2(j)] = v
+	}
+	// lone: the element is related (in either direction) to no other element of either list
+	rel := func(a, b int) bool { return test2(c.Test, kv(a), kv(b)) || test2(c.Test, kv(b), kv(a)) }
+	all := append(append([]int(nil), c.Seq...), c.Seq2...)
+	lone := func(pos int) bool {
+		for q, w := range all {
+			if q != pos && rel(all[pos], w) {
+				return false
+			}
+		}
+		return true
+	}
 	switch c.Fn {
 	case "union", "nunion":
+		// every element of either list, except that of a matching pair only one is required and that
+		// duplicates inside a list may be dropped
 		for i := range es1 {
-			avail[t1(i)]++
 			allowed[t1(i)] = true
-			if !m1[i] {
+			if lone(i) {
 				must[t1(i)] = true
 			}
 		}
 		for j := range es2 {
-			avail[t2(j)]++
 			allowed[t2(j)] = true
-			if !m2[j] {
+			if lone(len(es1) + j) {
 				must[t2(j)] = true
 			}
 		}
-		for i := range es1 {
-			for j := range es2 {
-				if match(i, j) {
-					oneOf = append(oneOf, pair{t1(i), t2(j)})
-				}
-			}
+		if equiv {
+			cover = all
 		}
 	case "intersection", "nintersection":
 		for i := range es1 {
-			avail[t1(i)]++
 			if m1[i] {
 				allowed[t1(i)] = true
+				if equiv {
+					cover = append(cover, c.Seq[i])
+				}
 			}
 		}
 		for j := range es2 {
-			avail[t2(j)]++
 			if m2[j] {
 				allowed[t2(j)] = true
 			}
 		}
-		for i := range es1 {
-			for j := range es2 {
-				if match(i, j) {
-					oneOf = append(oneOf, pair{t1(i), t2(j)})
+		if !equiv {
+			// duplicates inside a list (under the test) may be dropped, so with an asymmetric test
+			// only this much is fixed: a matching pair exists iff the result is not empty
+			for i := range es1 {
+				if m1[i] && len(items) == 0 {
+					oneOf = append(oneOf, pair{t1(i), t1(i)})
 				}
 			}
 		}
 	case "set-difference", "nset-difference":
 		for i := range es1 {
-			avail[t1(i)]++
 			if !m1[i] {
 				allowed[t1(i)] = true
 				must[t1(i)] = true
@@ -1201,14 +1221,12 @@ func runSet(c Case) *h.Result {
 		}
 	case "set-exclusive-or":
 		for i := range es1 {
-			avail[t1(i)]++
 			if !m1[i] {
 				allowed[t1(i)] = true
 				must[t1(i)] = true
 			}
 		}
 		for j := range es2 {
-			avail[t2(j)]++
 			if !m2[j] {
 				allowed[t2(j)] = true
 				must[t2(j)] = true
@@ -1218,11 +1236,11 @@ func runSet(c Case) *h.Result {
 	bad := func(why string) *h.Result {
 		return k.fail("%s with %s: result %s %s", src, k.inputsText(), sx.Text(got), why)
 	}
-	for t, cnt := range in {
+	for _, t := range sortedCount(in) {
 		if !allowed[t] {
 			return bad("contains " + t + " which does not belong to it")
 		}
-		if cnt > avail[t] {
+		if in[t] > avail[t] {
 			return bad("contains " + t + " more often than the arguments do")
 		}
 	}
@@ -1231,13 +1249,25 @@ func runSet(c Case) *h.Result {
 			return bad("lacks " + t)
 		}
 	}
+	for _, v := range cover {
+		found := false
+		for _, t := range sortedCount(in) {
+			if test2(c.Test, kv(v), kv(valOf[t])) {
+				found = true
+				break
+			}
+		}
+		if !found {
+			return bad(fmt.Sprintf("has no element matching %d", v))
+		}
+	}
 	for _, p := range oneOf {
 		if in[p.a] == 0 && in[p.b] == 0 {
 			return bad("has neither " + p.a + " nor " + p.b)
 		}
 	}
 	// with an equivalence test and no duplicates inside either list the size is determined
-	if c.Test != "lt" && !dupUnder(c, c.Seq) && !dupUnder(c, c.Seq2) {
+	if equiv && !dupUnder(c, c.Seq) && !dupUnder(c, c.Seq2) {
 		common := 0
 		for _, m := range m1 {
 			if m {
@@ -1271,6 +1301,14 @@ func dupUnder(c Case, seq []int) bool {
 		}
 	}
 	return false
+}
+
+func sortedCount(m map[string]int) []string {
+	b := map[string]bool{}
+	for k := range m {
+		b[k] = true
+	}
+	return sortedKeys(b)
 }
 
 func sortedKeys(m map[string]bool) []string {
@@ -1353,7 +1391,7 @@ func fun2(name string, a, b V) V {
 		return vb(a.N < b.N)
 	case "clt":
 		return vb(a.N < b.N)
-	case "eql2":
+	case "eql2", "equal2":
 		return vb(a.K == b.K && a.N == b.N && a.K != 'o')
 	}
 	panic("fun2 " + name)
@@ -1375,6 +1413,8 @@ func fun2Src(style int, name string) string {
 		return designator(style, "char<", "(lambda (a b) (char< a b))")
 	case "eql2":
 		return designator(style, "eql", "(lambda (a b) (eql a b))")
+	case "equal2":
+		return designator(style, "equal", "(lambda (a b) (equal a b))")
 	}
 	panic("fun2 " + name)
 }
@@ -1413,9 +1453,11 @@ func runMap(c Case) *h.Result {
 			vals[i] = fun1(c.Pred, es[i])
 		}
 	}
-	fsrc := fun1Src(c.Style, c.Pred)
+	var fsrc string
 	if nseq == 2 {
 		fsrc = fun2Src(c.Style, c.Pred)
+	} else {
+		fsrc = fun1Src(c.Style, c.Pred)
 	}
 	k.res.NonTrivial = m >= 3 && hasDup(c.Seq)
 	var src string
@@ -1546,6 +1588,37 @@ type exclusion struct {
 	in  func(Case) bool
 }
 
-var exclusions = []exclusion{}
+var exclusions = []exclusion{
+	// C14-F3: reduce of an empty (sub)sequence without :initial-value returns nil instead of calling the
+	// function with no arguments (pinned by TestReduceEmpty)
+	{"reduce-empty-no-initial-value", func(c Case) bool {
+		return c.Fn == "reduce" && c.Init == "" && bound(c.Start, 0) == bound(c.End, len(c.Seq))
+	}},
+	// C14-F1: fill rejects a :start or :end equal to the length (pinned by TestFillBadStart/TestFillBadEnd)
+	{"fill-bound-equals-length", func(c Case) bool {
+		if c.Fn != "fill" {
+			return false
+		}
+		n := len(c.Seq)
+		_, endNum := strconv.Atoi(c.End)
+		return bound(c.Start, 0) == n || (endNum == nil && bound(c.End, n) == n)
+	}},
+	// C14-F2: mismatch :from-end reports start1 + distance-from-the-end instead of the index in sequence-1
+	// whenever an element pair differs (pinned by TestMismatchFromEnd)
+	{"mismatch-from-end-index", func(c Case) bool {
+		if c.Fn != "mismatch" || !truth(c.FromEnd) {
+			return false
+		}
+		s1, e1 := bound(c.Start1, 0), bound(c.End1, len(c.Seq))
+		s2, e2 := bound(c.Start2, 0), bound(c.End2, len(c.Seq2))
+		for d := 1; d <= e1-s1 && d <= e2-s2; d++ {
+			if !test2(c.Test, c.keyVal(c.Kind, c.Seq[e1-d]), c.keyVal(c.Kind2, c.Seq2[e2-d])) {
+				// the first differing pair, d elements from the end: slip answers s1+d, the index is e1-d+1
+				return s1+d != e1-d+1
+			}
+		}
+		return false
+	}},
+}
 
 var _ = testing.Short
